@@ -110,11 +110,11 @@ def _show(obs):
 
 def _judge_outcome(acceptable: set, obs, family: str, types: str, op: str, detail: str, discs: list):
     """acceptable: set of True / False / error codes (or the marker 'empty');
-    bucket = C07/<family>/<types>/<op>/<failure>"""
+    bucket = C07/<family>/<types>/<failure>/<op>"""
     exp = '|'.join(sorted(str(x).lower() if isinstance(x, bool) else x for x in acceptable))
 
     def add(failure, observed):
-        discs.append(Disc(f'C07/{family}/{types}/{op}/{failure}', exp, observed, detail))
+        discs.append(Disc(f'C07/{family}/{types}/{failure}/{op}', exp, observed, detail))
 
     if obs[0] == 'escape':
         discs.append(Disc(escape_bucket(PROPERTY, obs[1]) + f'/{family}', exp, repr(obs[1]), detail))
@@ -192,37 +192,102 @@ def _as_double_compare(op, a, b):
     return None
 
 
-def _lenient_pair(op, a, b, mode, tzm):
-    """known-defect model of a general comparison pair: an incomparable pair is 'not equal' instead of XPTY0004"""
+_ORDER = ('lt', 'le', 'gt', 'ge')
+
+
+def _model_pair(op, a, b, mode, tzm):
+    """Outcome of one general-comparison pair under elementpath's *recorded* defects -> (result, tag);
+    result: ('bool', b) | ('error', code) | ('anybool',) | None; tag None = the reference rule applies."""
+    ta, tb = a[0], b[0]
+    if ta == tb == 'untypedAtomic' and op in _ORDER:
+        # both untypedAtomic: ordered as doubles instead of as strings (pinned by tests/test_datatypes.py test_lt)
+        try:
+            x, y = N.parse('double', a[1]), N.parse('double', b[1])
+        except ValueError:
+            return ('error', 'FORG0001'), 'untyped-pair-ordered-numerically'
+        return ('bool', C._num_compare(op, ('double', x), ('double', y))), 'untyped-pair-ordered-numerically'
+    if {ta, tb} == {'untypedAtomic', 'decimal'} and op in _ORDER:
+        u = a if ta == 'untypedAtomic' else b
+        if u[1].strip() == 'NaN':
+            # untypedAtomic is cast to xs:decimal instead of xs:double (pinned by tests/test_datatypes.py test_eq)
+            return ('error', 'FORG0001'), 'untyped-cast-to-decimal'
+    if {ta, tb} == {'untypedAtomic', 'duration'} and op in _ORDER:
+        u = a if ta == 'untypedAtomic' else b
+        try:
+            C.parse_duration('duration', u[1])
+        except C.CastError:
+            return ('error', 'FORG0001'), None
+        return ('anybool',), 'untyped-vs-duration-ordered'
+    if ta == 'anyURI' and tb == 'untypedAtomic' and b[1] != ' '.join(b[1].split()):
+        return C.value_compare(op, ['string', a[1]], ['string', b[1]], mode, tzm), 'anyURI-left-untyped-not-collapsed'
     r = C._general_pair(op, a, b, mode, tzm)
     if r == ('error', 'XPTY0004') and op in ('eq', 'ne'):
-        return ('bool', op == 'ne')
-    return r
+        return ('bool', op == 'ne'), 'missing-XPTY0004'
+    return r, None
+
+
+def _model_general(sym, SA, SB, mode, tzm):
+    """(set of outcomes acceptable under the recorded-defect model, tags) or (None, tags)"""
+    op = C.GENERAL[sym]
+    any_true = anybool = False
+    errors, tags = set(), set()
+    for a in SA:
+        for b in SB:
+            r, tag = _model_pair(op, a, b, mode, tzm)
+            if tag:
+                tags.add(tag)
+            if r is None:
+                return None, tags
+            if r[0] == 'error':
+                errors.add(r[1])
+            elif r[0] == 'anybool':
+                anybool = True
+            elif r[1]:
+                any_true = True
+    out = set(errors)
+    if any_true or anybool:
+        out.add(True)
+    if not any_true and (anybool or not errors):
+        out.add(False)
+    if not any_true and errors and not anybool:
+        pass
+    return out, tags
 
 
 def _special(discs, start, family, types, op, obs, a, b, mode, tz, close, general):
     """move the discrepancy of one comparison into a narrow root-cause bucket when a recorded cause explains it"""
-    if len(discs) == start or obs[0] != 'bool':
+    if len(discs) == start or obs[0] not in ('bool', 'error'):
         return
     d = discs[start]
     opn = C.GENERAL.get(op, op)
     if close:
         d.bucket = f'C07/numeric-isclose-tolerance/{family}/{op}'
         return
-    if tz is not None and _temporal_mixed([a, b]):
-        r = C.value_compare(opn, a, b, mode, 0) if a[0] == b[0] else None
+    a2, b2 = a, b
+    temporal = C.DATETIMES + C.GREGORIAN
+    if general and a[0] == 'untypedAtomic' and b[0] in temporal:
+        a2 = [b[0], a[1]]
+    elif general and b[0] == 'untypedAtomic' and a[0] in temporal:
+        b2 = [a[0], b[1]]
+    try:
+        mixed = tz is not None and a2[0] == b2[0] and _temporal_mixed([a2, b2])
+    except C.CastError:
+        mixed = False
+    if mixed:
+        r = C.value_compare(opn, a2, b2, mode, 0)
         if r is not None and r[0] == 'bool' and r[1] == obs[1]:
             # the implicit timezone of the dynamic context is ignored: timezone-less values are taken as UTC
-            d.bucket = f'C07/implicit-timezone-ignored/{family}/{a[0]}'
+            d.bucket = f'C07/implicit-timezone-ignored/{family}/{a2[0]}'
             return
     m = _as_double_compare(opn, a, b)
     if m is not None and m == obs[1]:
         d.bucket = f'C07/float-carried-as-double/{family}/{types}'
         return
     if general:
-        r = _lenient_pair(opn, a, b, mode, TZ_MIN[tz])
-        if r is not None and r[0] == 'bool' and r[1] == obs[1] and d.bucket.endswith('no-error:XPTY0004'):
-            d.bucket = f'C07/general-missing-XPTY0004/{types}/{op}'
+        acc, tags = _model_general(op, [a], [b], mode, TZ_MIN[tz])
+        if acc is not None and tags and _outcome_of(obs) in acc:
+            tag = '+'.join(sorted(tags))
+            d.bucket = f'C07/{tag}/{types}/{op}' if tag == 'missing-XPTY0004' else f'C07/{tag}/general1/{op}'
 
 
 def judge_value(case, rec: Recorder | None = None) -> list[Disc]:
@@ -308,15 +373,13 @@ def judge_general(case, rec: Recorder | None = None) -> list[Disc]:
         obs = observe(mode, expr, tz)
         before = len(discs)
         _judge_outcome(acc, obs, 'general', kinds, sym, f'{mode} tz={tz} {expr}', discs)
-        if len(discs) > before and obs[0] == 'bool':
+        if len(discs) > before and obs[0] in ('bool', 'error'):
             if close:
                 discs[before].bucket = f'C07/numeric-isclose-tolerance/general/{sym}'
             else:
-                # known-defect model: incomparable pairs count as 'not equal' instead of raising XPTY0004
-                rs = [_lenient_pair(C.GENERAL[sym], a, b, mode, tzm) for a in SA for b in SB]
-                if all(r is not None for r in rs) and not any(r[0] == 'error' for r in rs) and \
-                        any(r[1] for r in rs) == obs[1]:
-                    discs[before].bucket = f'C07/general-missing-XPTY0004/seq/{sym}'
+                macc, tags = _model_general(sym, SA, SB, mode, tzm)
+                if macc is not None and tags and _outcome_of(obs) in macc:
+                    discs[before].bucket = f'C07/{"+".join(sorted(tags))}/general/{sym}'
     if rec is not None:
         classes = ['general:case', f'general:mode-{mode}']
         if len(SA) >= 2 or len(SB) >= 2:
@@ -563,8 +626,11 @@ def general_case(draw):
     else:
         types = _ARM_TYPES
     el = st.sampled_from(types).flatmap(A.atom_of)
-    SA = draw(st.lists(el, min_size=0, max_size=4))
-    SB = draw(st.lists(el, min_size=0, max_size=4))
+    tt = [t for t in types if t != 'untypedAtomic']
+    typed = st.sampled_from(tt).flatmap(A.atom_of) if tt else el
+    side = draw(st.integers(0, 2))     # untypedAtomic on both sides only in a third of the cases
+    SA = draw(st.lists(typed if side == 1 else el, min_size=0, max_size=4))
+    SB = draw(st.lists(typed if side == 2 else el, min_size=0, max_size=4))
     return {'mode': draw(_mode), 'tz': None, 'A': SA, 'B': SB}
 
 
